@@ -868,6 +868,8 @@ def _helper_ok(h):
     for n in ast.walk(h):
         if isinstance(n, (ast.Yield, ast.YieldFrom, ast.Await, ast.Global, ast.Nonlocal)):
             return False
+        if isinstance(n, ast.Call) and isinstance(n.func, ast.Name) and n.func.id == h.name:
+            return False            # recursive
         if isinstance(n, (ast.FunctionDef, ast.AsyncFunctionDef, ast.ClassDef)) and n is not h:
             return False
     return True
